@@ -159,6 +159,10 @@ def run(cx, out):
         # R19.2 forwarding of the remaining methods (C08 R08.1 on this wrapper)
         c08.check_wrapper(out, facts, 'CountedInput', rule='R19.2', own_methods=('read', 'read_byte'))
     out.count('counting methods analysed', n_methods)
+    # premise: "failed reads add nothing" compares with what the wrapped input delivered: the provided inputs deliver
+    # nothing on a failed read (C14 R14.1 slice, C08 R08.4 IoReader / BytesCursor)
+    from . import shared
+    shared.premises(cx, out, {'c14': {'R14.1'}, 'c08': {'R08.4'}})
 
 
 def _writes_field(node, name):
